@@ -2,7 +2,7 @@ from . import COMMON_TB, NOTE
 
 PROP = {
     "modules": ["Proofs.C08", "Proofs.C08Source"],
-    "streams": [{"name": "eparse"}, {"name": "render"}, {"name": "exprs"}],
+    "streams": [{"name": "eparse"}, {"name": "eshow"}, {"name": "render"}, {"name": "exprs"}],
     "rule": "eparse: exhaustive token soups of length<=3/4 over 23 lexemes (as expressions), grammar-generated expressions and "
             "assign/for/cycle/when statements with random spacing, mutants and random soups; compared with the model: accept / reject "
             "of an expression, and for an accepted statement the assigned variable, the cycle group and values, the loop variable "
